@@ -23,11 +23,15 @@ StrVal(s) == [t |-> "str", s |-> s, n |-> 0, l |-> <<>>]
 IntVal(n) == [t |-> "int", s |-> "", n |-> n, l |-> <<>>]
 
 Small == Size = "s"
-Texts == IF Small THEN {<<11, 12, 21>>} ELSE {<<11, 12, 21>>, <<13, 11>>}
-ResIds == IF Small THEN {"r1"} ELSE {"r1", "r2"}
+Texts == IF Size # "m" THEN {<<11, 12, 21>>} ELSE {<<11, 12, 21>>, <<13, 11>>}
+ResIds == IF Size # "m" THEN {"r1"} ELSE {"r1", "r2"}
 SetIds == {"s1"}
-AnnIds == IF Small THEN {""} ELSE {"", "a1"}
-Vals == IF Small THEN {StrVal("v1")} ELSE {StrVal("v1"), IntVal(1)}
+AnnIds == IF Size # "m" THEN {""} ELSE {"", "a1"}
+TypedVal(t, n, l) == [t |-> t, s |-> "", n |-> n, l |-> l]
+Vals == CASE Size = "s" -> {StrVal("v1")}
+          [] Size = "v" -> {StrVal("v1"), IntVal(-7), TypedVal("float", 3, <<>>), TypedVal("bool", 1, <<>>), NullVal,
+                            TypedVal("datetime", 61, <<>>), TypedVal("list", 0, <<IntVal(1), StrVal("v2"), TypedVal("bool", 0, <<>>)>>)}
+          [] OTHER -> {StrVal("v1"), IntVal(1)}
 
 \* references to live items, by handle and (when they have one) by id
 RefsTo(items, live) == {ByH(h) : h \in live} \cup {ById(items[h].id) : h \in {x \in live : items[x].id # ""}}
@@ -61,6 +65,8 @@ SubPairs ==
        \cup {<<TB("Ann", ByH(x), NoRef, Off("B", 0, "E", 0)), TB("Ann", ByH(y), NoRef, Off("B", 0, "E", 0))>> :
                x \in {z \in LiveAnns(st) : HasSingleText(st.anns[z])}, y \in {z \in LiveAnns(st) : HasSingleText(st.anns[z])}}
        \cup {<<TB("Ann", x, NoRef, NoOffset), TB("Text", r, NoRef, Off("B", 0, "B", 1))>> : x \in A, r \in R}
+       \cup UNION {{<<TB("Res", r, NoRef, NoOffset), TB("Key", ByH(s), ByH(k), NoOffset)>> : r \in R, k \in {k \in 1..Len(st.sets[s].keys) : st.sets[s].keys[k].alive}} : s \in LiveSets(st)}
+       \cup UNION {{<<TB("Text", r, NoRef, Off("B", 0, "B", 1)), TB("Data", ByH(s), ByH(d), NoOffset)>> : r \in R, d \in {d \in 1..Len(st.sets[s].data) : st.sets[s].data[d].alive}} : s \in LiveSets(st)}
 
 ComplexTargets == {Complex(k, p) : k \in {"Multi", "Composite", "Directional"}, p \in {q \in SubPairs : q[1] # q[2]}}
 
@@ -352,6 +358,7 @@ ReadOps ==
     (IF Has("lookup") THEN SetToSeq(LookupOps) ELSE <<>>)
     \o (IF Has("offsets") THEN SetToSeq(OffsetOps) \o SetToSeq(AnnOps) \o SetToSeq(ReportOps) ELSE <<>>)
     \o (IF Has("anntext") THEN SetToSeq(AnnOps) \o SetToSeq(ReportOps) ELSE <<>>)
+    \o (IF Has("webanno") THEN SetToSeq({RO("WebAnno", [ann |-> ByH(x), tmpl |-> t, ns |-> n]) : x \in LiveAnns(st), t \in BOOLEAN, n \in BOOLEAN}) ELSE <<>>)
     \o (IF Has("validate") THEN <<RO("Validate", [x |-> 0])>> ELSE <<>>)
     \o (IF Has("bytes") THEN SetToSeq(ByteOps) ELSE <<>>)
     \o (IF Has("relrows") THEN SetToSeq(RelRowOps) ELSE <<>>)
